@@ -53,6 +53,8 @@ func guardedEffects(fn *ssa.Function, muts map[string]string) []string {
 
 func c08(c *Ctx) {
 	r := c.R
+	r.Rule("PATH(tombstone): the delete handler treats a cache.DeletedFinalStateUnknown (delivered by value) like the object inside it: both reach the release, and no assertion to the pointer type exists")
+	c.Tombstone("PATH", loadawarePkg, "podAssignCache", "OnDelete", "unAssign")
 	r.Decides("addPod and deletePod perform the same guarded effects on the same accumulators with dual operations and textually identical conditions (the incremental sums are updated by an operation and its exact inverse)")
 	r.Decides("every accumulator touched by addPod/deletePod is re-initialised in AddOrUpdateNodeMetric before the pods are re-added (a metric report rebuilds from scratch)")
 	r.Decides("Filter returns success only as the result of the threshold check or under the enumerated exemptions; an expired metric with scheduling disallowed is rejected; the threshold check rejects as soon as one thresholded resource exceeds its limit")
